@@ -21,7 +21,32 @@ for f in files:
             cur = (parts[0], parts[1:])
             curlift = None
         m2 = re.match(r'\s*//@ closure (\d+):', l)
+        m3 = re.match(r'\s*//@ loop (\d+):\s*$', l)
         out.append(l)
+        if m3 and cur and not any(re.match(r'\s*//@ loop-expect %s:' % m3.group(1), x) for x in lines[max(0, i - 2):i + 3]):
+            j = i
+            while j >= 0 and not lines[j].strip().startswith('//@extract'):
+                j -= 1
+            blk = []
+            k = j + 1
+            while k < len(lines) and lines[k].strip() != '//@end':
+                blk.append(lines[k]); k += 1
+            tmp = '/tmp/_ce.vt'
+            open(tmp, 'w').write('\n'.join([lines[j]] + [b for b in blk if re.match(r'\s*//@ (rules|map|sig|letty|lift-async|lift-closure):', b) or re.match(r'\s*//@ lift-', b)] + ['//@end']) + '\n')
+            try:
+                chunks = vx.parse_template(tmp)
+                exx = chunks[0][1]
+                text, log, meta = vx.render_extract(exx)
+                _, _, body = vx.split_item(text)
+                toks = tokenize(body)
+                lp = vx.find_loops(toks)
+                kk = int(m3.group(1))
+                if 1 <= kk <= len(lp):
+                    # insert after the continuation lines of this loop directive? simplest: directly after the directive line
+                    out.append('//@ loop-expect %d: %s' % (kk, toks[lp[kk - 1]][1]))
+                    changed = True
+            except Exception as e:
+                print('skip loop', f, l, e)
         if m2 and cur and not any(re.match(r'\s*//@ closure-expect %s:' % m2.group(1), x) for x in lines[max(0, i - 2):i + 8]):
             # compute header k of the body after rules: use vx internals
             ex = vx.Extract(cur[0], cur[1])
